@@ -63,6 +63,10 @@ func (a *FilteredAdapter) LoadPolicy(model model.Model) error {
 
 // LoadFilteredPolicy loads only policy rules that match the filter.
 func (a *FilteredAdapter) LoadFilteredPolicy(model model.Model, filter interface{}) error {
+	// The enforcer drops its previous view before calling this, so until a load completes
+	// the in-memory policy has to count as partial: a failed filtered load must not leave
+	// SavePolicy free to overwrite the store.
+	a.filtered = true
 	if filter == nil {
 		return a.LoadPolicy(model)
 	}
